@@ -80,7 +80,7 @@ func registerSyncStubs(reg func(string, intrinsic)) {
 		if s.counter < 0 {
 			panic(targetPanic{v: iface{t: x.rtErrType, v: strVal{s: "sync: negative WaitGroup counter"}}, msg: "sync: negative WaitGroup counter"})
 		}
-		if x.sched != nil {
+		if x.sched != nil && d < 0 {
 			x.sched.release(x, args[0].(*value))
 		}
 		return nil
@@ -139,6 +139,97 @@ func registerSyncStubs(reg func(string, intrinsic)) {
 		}
 		s.locked = false
 		return nil
+	})
+}
+
+// reachableCells collects every heap cell reachable from v (through pointers, slices, structs,
+// arrays, interfaces, maps and closures).
+func reachableCells(v value, cells map[*value]bool, maps map[*mapVal]bool, depth int) {
+	if depth > 64 {
+		return
+	}
+	switch t := v.(type) {
+	case *value:
+		if t == nil || cells[t] {
+			return
+		}
+		cells[t] = true
+		reachableCells(*t, cells, maps, depth+1)
+	case sliceVal:
+		full := t.a[:cap(t.a)]
+		for i := range full {
+			if cells[&full[i]] {
+				return
+			}
+			cells[&full[i]] = true
+			reachableCells(full[i], cells, maps, depth+1)
+		}
+	case structure:
+		for i := range t {
+			cells[&t[i]] = true
+			reachableCells(t[i], cells, maps, depth+1)
+		}
+	case array:
+		for i := range t {
+			cells[&t[i]] = true
+			reachableCells(t[i], cells, maps, depth+1)
+		}
+	case iface:
+		reachableCells(t.v, cells, maps, depth+1)
+	case *mapVal:
+		if t == nil || maps[t] {
+			return
+		}
+		maps[t] = true
+		for _, e := range t.entries {
+			reachableCells(e.v, cells, maps, depth+1)
+		}
+	case *closure:
+		if t != nil {
+			for _, e := range t.Env {
+				reachableCells(e, cells, maps, depth+1)
+			}
+		}
+	}
+}
+
+func registerConcIntrinsics(reg func(string, intrinsic)) {
+	reg(hp+"verifSchedAll", func(x *Exec, fr *frame, args []value) value {
+		x.sched = newScheduler(x, int(x.concInt(args[0], "preemption bound")))
+		return nil
+	})
+	reg(hp+"verifYield", func(x *Exec, fr *frame, args []value) value {
+		if x.sched != nil {
+			x.sched.yield("callback")
+		}
+		return nil
+	})
+	reg(hp+"verifRaces", func(x *Exec, fr *frame, args []value) value {
+		return x.tb.Int(int64(len(x.raceMsgs)))
+	})
+	reg(hp+"verifTrackWrites", func(x *Exec, fr *frame, args []value) value {
+		x.wtrack = map[*value]bool{}
+		x.wtrackM = map[*mapVal]bool{}
+		return nil
+	})
+	// verifWroteInto(root): did any store since verifTrackWrites hit memory reachable from root?
+	reg(hp+"verifWroteInto", func(x *Exec, fr *frame, args []value) value {
+		cells := map[*value]bool{}
+		maps := map[*mapVal]bool{}
+		reachableCells(args[0], cells, maps, 0)
+		hit := false
+		for c := range x.wtrack {
+			if cells[c] {
+				hit = true
+				break
+			}
+		}
+		for m := range x.wtrackM {
+			if maps[m] {
+				hit = true
+			}
+		}
+		return x.tb.Bool(hit)
 	})
 }
 
